@@ -483,15 +483,22 @@ func (s *Server) handleRPCReplenishAccounts(stream net.Conn) error {
 
 	var depositSum types.Currency
 	var costResp rhp4.RPCReplenishAccountsResponse
+	// an account listed more than once must not be topped up beyond the
+	// target: later occurrences see the balance the earlier deposit leaves
+	pending := make(map[rhp4.Account]types.Currency, len(balances))
 	for i, balance := range balances {
 		deposit := rhp4.AccountDeposit{
 			Account: req.Accounts[i],
+		}
+		if b, ok := pending[deposit.Account]; ok {
+			balance = b
 		}
 
 		value, underflows := req.Target.SubWithUnderflow(balance)
 		if !underflows {
 			deposit.Amount = value
 		}
+		pending[deposit.Account] = balance.Add(deposit.Amount)
 		depositSum = depositSum.Add(deposit.Amount)
 		costResp.Deposits = append(costResp.Deposits, deposit)
 	}
@@ -555,14 +562,21 @@ func (s *Server) handleRPCReplenishPools(stream net.Conn) error {
 
 	var depositSum types.Currency
 	var costResp rhp4.RPCReplenishAccountsResponse
+	// a pool listed more than once must not be topped up beyond the target:
+	// later occurrences see the balance the earlier deposit leaves
+	pending := make(map[rhp4.Account]types.Currency, len(balances))
 	for i, balance := range balances {
 		deposit := rhp4.AccountDeposit{
 			Account: req.Accounts[i],
+		}
+		if b, ok := pending[deposit.Account]; ok {
+			balance = b
 		}
 		value, underflows := req.Target.SubWithUnderflow(balance)
 		if !underflows {
 			deposit.Amount = value
 		}
+		pending[deposit.Account] = balance.Add(deposit.Amount)
 		depositSum = depositSum.Add(deposit.Amount)
 		costResp.Deposits = append(costResp.Deposits, deposit)
 	}
